@@ -62,7 +62,7 @@ class Env:
             extra = {} if via == "empty_extra_dict" else []
         if via == "cache_arg" and cache is not None:
             set_cache(NoCache())
-            kw["cache"] = cache
+            kw["cache"] = getattr(cache, "inner", cache)   # the cache object itself, not the recording wrapper
         else:
             set_cache(cache if cache is not None else NoCache())
         self.count("via." + via)
